@@ -62,9 +62,20 @@ elif PRE == "elsewhere":
     import os
     os.chdir("/")
 steps = []
-for m in order:
+for _k, m in enumerate(order):
     try:
-        if FORM == "stmt":
+        if FORM == "thread" and _k == 0:
+            # the first import of the process happens in a helper thread that has ended before the next import starts
+            import threading
+            _box = []
+            def _imp():
+                try:
+                    importlib.import_module("chartparse." + m)
+                except BaseException as e:
+                    _box.append(e)
+            _t = threading.Thread(target=_imp); _t.start(); _t.join()
+            if _box: raise _box[0]
+        elif FORM == "stmt":
             exec("import chartparse." + m, {})
         elif FORM == "from":
             exec("from chartparse import " + m, {})
@@ -222,6 +233,8 @@ def slice(ctx: fw.Ctx) -> fw.Outcome:
     flagged = [([m], fl, FORMS[(i + j) % 4], None) for j, fl in enumerate((("-O",), ("-OO",), ("-W", "error"), ("-X", "warn_default_encoding", "-W", "error"), ("-X", "dev", "-W", "error"), ("-B", "-bb"))) for i, m in enumerate(mods)]
     # every module first, every way of writing the import (4 x 12, complete)
     flagged += [([m], (), f, None) for f in FORMS[1:] for m in mods]
+    # every ordered pair with the first import made by a helper thread that has ended (12 x 11, complete)
+    flagged += [([a, b], (), "thread", None) for a in mods for b in mods if a != b]
     # every module first in a process its client has already configured (decimal context, standard streams, logging, warnings, cwd)
     flagged += [([m], (), FORMS[(i + j) % 4], None, pre) for j, pre in enumerate(PRES) for i, m in enumerate(mods)]
     import shutil
